@@ -516,14 +516,19 @@ theorem powiLoop_canonical (fuel n : Nat) (elem val : Flt) (s : Sem) (hF : s.WF)
         · exact hes
       · exact (mul_canonical val val (by rw [hvs]; exact hF)).2.trans hvs
 
+theorem Sem.withRm_WF {s : Sem} (h : s.WF) (rm : RM) : (s.withRm rm).WF := h
+
 theorem powi_canonical (x : Flt) (n : Nat) (hF : x.sem.WF) (hx : x.Canonical) :
     (x.powi n).Canonical ∧ (x.powi n).sem = x.sem := by
   unfold Flt.powi
-  have hW := Sem.increasePrecision_WF hF 2
+  have hW : ((x.sem.increasePrecision 2).withRm (powiInnerRm x.sem.rm)).WF :=
+    Sem.withRm_WF (Sem.increasePrecision_WF hF 2) _
   have hc := cast_canonical x _ hW hx
-  have hl := powiLoop_canonical 64 n (Flt.one (x.sem.increasePrecision 2) false)
-    (x.cast (x.sem.increasePrecision 2)) _ hW (Flt.one_canonical _ _ hW) rfl hc.2
-  exact cast_canonical _ _ hF hl.1
+  have hl := powiLoop_canonical 64 n
+    (Flt.one ((x.sem.increasePrecision 2).withRm (powiInnerRm x.sem.rm)) false)
+    (x.cast ((x.sem.increasePrecision 2).withRm (powiInnerRm x.sem.rm))) _ hW
+    (Flt.one_canonical _ _ hW) rfl hc.2
+  exact castWithRm_canonical _ _ _ hF hl.1
 
 theorem remLoop_canonical (fuel : Nat) (lhs rhs r : Flt) (hF : lhs.sem.WF) (hs : rhs.sem = lhs.sem)
     (hl : lhs.Canonical) (hr : rhs.Canonical) (h : remLoop fuel lhs rhs = some r) :
